@@ -1121,6 +1121,23 @@ func c19RunLib(fn string) (res string) {
 				r = "?"
 			}
 		}
+	case "tiny.const/apply": // first thing this process does to the target, so no function-size cache is warm
+		mock.Func(c19TinyConst).Apply(func() int { n++; return 7 })
+		r = one(c19TinyConst())
+	case "tiny.const/ret":
+		mock.Func(c19TinyConst).Return(7)
+		n = 1
+		r = one(c19TinyConst())
+	case "tiny.getter/apply":
+		mock.Struct(&c19G{}).Method("Get").Apply(func(g *c19G) int { n++; return 7 })
+		r = one((&c19G{v: 1}).Get())
+	case "tiny.getter/ret":
+		mock.Struct(&c19G{}).Method("Get").Return(7)
+		n = 1
+		r = one((&c19G{v: 1}).Get())
+	case "tiny.neg/apply":
+		mock.Func(c19TinyNeg).Apply(func(x int) int { n++; return 7 })
+		r = one(c19TinyNeg(3))
 	case "time.Now/func", "time.Now/name", "time.Now/ret", "time.Now/as":
 		// time.Now through every handle kind; the logger calls time.Now itself (debug.go:14 excludes it from call logging),
 		// so only what OUR call sees is recorded, not how often the callback ran
@@ -1147,6 +1164,144 @@ func c19RunLib(fn string) (res string) {
 	mock.Reset()
 	return "lib n=" + strconv.Itoa(n) + " r=" + r
 }
+
+// ---- variable mocks ----------------------------------------------------------------------------------------------------
+
+var (
+	c19VarP *c19Node // nil before the mock (a lazily initialised singleton)
+	c19VarQ *c19Node // set in c19Init
+	c19VarI = 7
+	c19varUP *c19Node
+	c19varUQ *c19Node
+	c19varUI = 7
+)
+
+// c19RunVar: `c19.v <cfg> <var> <op> ; ...` with ops set <v> | apply <v> | reset | read | dbg ..
+func c19RunVar(toks []string, logf *os.File) string {
+	if len(toks) < 4 {
+		return "bad-op"
+	}
+	c19VarP, c19VarQ, c19VarI, c19varUP, c19varUQ, c19varUI = nil, c19Nodes[0], 7, nil, c19Nodes[0], 7
+	mock := Create()
+	const pkg = "github.com/tencent/goom."
+	kind := toks[2]
+	isPtr := kind[1] != 'i'
+	handle := func() VarMock {
+		switch kind {
+		case "vp":
+			return mock.Var(&c19VarP)
+		case "vq":
+			return mock.Var(&c19VarQ)
+		case "vi":
+			return mock.Var(&c19VarI)
+		case "up":
+			return mock.UnExportedVar(pkg + "c19varUP")
+		case "uq":
+			return mock.UnExportedVar(pkg + "c19varUQ")
+		case "ui":
+			return mock.UnExportedVar(pkg + "c19varUI")
+		}
+		panic("bad-op")
+	}
+	read := func() string {
+		switch kind {
+		case "vp":
+			return c19DescNode(c19VarP)
+		case "vq":
+			return c19DescNode(c19VarQ)
+		case "vi":
+			return strconv.Itoa(c19VarI)
+		case "up":
+			return c19DescNode(c19varUP)
+		case "uq":
+			return c19DescNode(c19varUQ)
+		case "ui":
+			return strconv.Itoa(c19varUI)
+		}
+		panic("bad-op")
+	}
+	c19PTags = nil
+	L := 0
+	logf.Seek(0, 0)
+	var T []string
+	for _, op := range c19SplitOps(toks[3:]) {
+		if len(op) == 0 {
+			return "bad-op"
+		}
+		r := "bad-op"
+		switch {
+		case (op[0] == "set" || op[0] == "apply") && len(op) == 2:
+			var v interface{}
+			if g := c19Guard(func() {
+				if isPtr {
+					v = c19ParseNode(op[1]) // typed: (*c19Node)(nil) for "nil"
+				} else {
+					v = c19ParseInt(op[1])
+				}
+			}); g != "ok" {
+				return "bad-op"
+			}
+			p0, _ := logf.Seek(0, 1)
+			r = c19Guard(func() {
+				if op[0] == "set" {
+					handle().Set(v)
+				} else if isPtr {
+					handle().Apply(func() *c19Node { return v.(*c19Node) })
+				} else {
+					handle().Apply(func() int { return v.(int) })
+				}
+			})
+			if p1, _ := logf.Seek(0, 1); p1 > p0 {
+				buf := make([]byte, p1-p0)
+				logf.ReadAt(buf, p0)
+				L += bytes.Count(buf, []byte("\n"))
+			}
+		case op[0] == "reset" && len(op) == 1:
+			r = c19Guard(func() { mock.Reset() })
+		case op[0] == "read" && len(op) == 1:
+			r = read()
+		case op[0] == "dbg" && len(op) == 2:
+			switch op[1] {
+			case "on":
+				OpenDebug()
+			case "off":
+				CloseDebug()
+			case "tron":
+				OpenTrace()
+			case "troff":
+				CloseTrace()
+			default:
+				return "bad-op"
+			}
+			r = "ok"
+		}
+		if strings.Contains(r, "bad-op") {
+			return "bad-op"
+		}
+		T = append(T, r)
+	}
+	c19Guard(func() { mock.Reset() })
+	logf.Truncate(0)
+	logf.Seek(0, 0)
+	pt := string(c19PTags)
+	if pt == "" {
+		pt = "-"
+	}
+	return fmt.Sprintf("T=%s P=%s W=- L=%d", strings.Join(T, "|"), pt, L)
+}
+
+// ---- tiny targets: the function's own instructions are shorter than the 13-byte jump (it spills into the padding) ----
+
+//go:noinline
+func c19TinyConst() int { return 42 }
+
+type c19G struct{ v int }
+
+//go:noinline
+func (g *c19G) Get() int { return g.v }
+
+//go:noinline
+func c19TinyNeg(x int) int { return -x }
 
 func c19HasCycle(toks []string) bool {
 	for _, t := range toks {
@@ -1228,6 +1383,23 @@ func TestVerifC19(t *testing.T) {
 			}
 			dirty = strings.Contains(op.Line, " dbg ")
 			out.Put(op.Idx, "%s", c19RunScenario(op.Toks, logf))
+		case "c19.v":
+			if nohome || len(op.Toks) < 2 || op.Toks[1] != cfg {
+				continue
+			}
+			if dirty {
+				switch cfg {
+				case "off":
+					CloseTrace()
+				case "debug", "env":
+					CloseTrace()
+					OpenDebug()
+				case "trace":
+					OpenTrace()
+				}
+			}
+			dirty = strings.Contains(op.Line, " dbg ")
+			out.Put(op.Idx, "%s", c19RunVar(op.Toks, logf))
 		case "c19.lib":
 			if len(op.Toks) == 3 && op.Toks[1] == cfg && os.Getenv("VERIF_C19_ISOLATED") != "" {
 				out.Put(op.Idx, "%s", c19RunLib(op.Toks[2]))
